@@ -161,6 +161,15 @@ def install(w):
         q = z3.Exists([j], z3.And(rng, t)) if is_any else z3.ForAll([j], z3.Implies(rng, t))
         return Val(mkb(q), bool)
 
+    @reg(builtins.map)
+    def _map(ex, st, args, kw, node):
+        f, xs = args
+        if f.py is not builtins.str:
+            raise Unsupported("map() with a function other than str", node)
+        sq = ex.seq_of(st, xs, node)
+        i = z3.Int(fresh_name("map!i"))
+        return ex.new_seq(st, list, sq.n, z3.Lambda([i], mks(ex.str_of(st, Val(sq.at(i), sq.elem), node))), elem=str)
+
     @reg(builtins.sorted)
     def _sorted(ex, st, args, kw, node):
         raise Unsupported("sorted", node)
